@@ -517,6 +517,14 @@ def run_property(prop):
                     seen.add(key)
                     rep.violation('a later session re-evaluated %d of 7 archived calls (%s archive, %s keymap, hash seeds 11 -> 4242): info=%r'
                                   % (r['evaluations'], a['archive'], a['keymap'], r['info']), {'case': a, 'hashseeds': [11, 4242]})
+    # ---- recorded known findings with a probe are probed directly: the line is printed only while they reproduce
+    for f in findings:
+        if f.get('property') == prop and f.get('status') == 'known' and f.get('probe') and f['id'] not in [k for k, _ in rep.known]:
+            try:
+                if getattr(__import__('findings'), f['probe'])():
+                    rep.known_finding(f['id'], f['description'])
+            except Exception as e:
+                rep.violation('probe of known finding %s failed: %s' % (f['id'], e), {'broken': 'known-finding probe'}, no_input=True)
     if not proof_ok:
         rep.violation('proof obligation no longer checks: %s' % (pinfo.get('log') or pinfo.get('build_log') or pinfo.get('hygiene')),
                       {'broken': 'coq/Props/%s.v' % prop}, no_input=True)
